@@ -102,6 +102,22 @@ def cmdPval (args : List String) : String :=
     "x" ++ hexOfFloat v
   | _ => "bad-op"
 
+/-- `pv <method> <num_permutations> <total|-> <max_perms> <observed> <null statistics…>`: the callback's whole
+p-value computation (`Perm.pValue`: count of null statistics ≥ observed, `auto` resolution, default or
+user-given `total_num_permutations`, formula) -/
+def cmdPv (args : List String) : String :=
+  match args with
+  | meth :: numPerm :: total :: maxPerms :: obs :: null =>
+    let m : Option Perm.Method := match meth with
+      | "auto" => some .auto | "conservative" => some .conservative | "exact" => some .exact
+      | "approximate" => some .approximate | "estimate" => some .estimate | _ => none
+    match m, floatOfHex? obs with
+    | some m, some o =>
+      let v : Float := Perm.pValue m numPerm.toNat! total.toNat? maxPerms.toNat! (parseFloats null) o
+      s!"x{hexOfFloat v} {Perm.extreme (parseFloats null) o}"
+    | _, _ => "bad-op"
+  | _ => "bad-op"
+
 /-- `t2 chi2 <corr> <k> o1 e1 o2 e2 …` | `t2 mwu n m xs…` | `t2 welch n m xs…` | `t2 kuiper n m xs…` | `t2 fwd pop|get <has_alt 0/1> <n_other>` -/
 def cmdTests2 (args : List String) : String :=
   match args with
